@@ -22,7 +22,7 @@ def decode_datetime(obj):
     return reference + offsets
 
 
-def decode_array(encoded, records_per_chunk):
+def decode_array(encoded, records_per_chunk, mapper=None):
     def default_decode(obj):
         return np.array(obj["data"], dtype=obj["dtype"])
 
@@ -33,7 +33,10 @@ def decode_array(encoded, records_per_chunk):
 
         return decoder(encoded)
 
-    mapper = fsspec.get_mapper(encoded["root"])
+    # the stored root is a bare path: only the mapper used to open the dataset knows
+    # the protocol and the storage options
+    if mapper is None or "://" in encoded["root"]:
+        mapper = fsspec.get_mapper(encoded["root"])
     from fsspec.implementations.dirfs import DirFileSystem
 
     fs = DirFileSystem(path=mapper.root, fs=mapper.fs)
@@ -54,19 +57,22 @@ def decode_array(encoded, records_per_chunk):
     )
 
 
-def decode_variable(encoded, records_per_chunk):
-    data = decode_array(encoded["data"], records_per_chunk=records_per_chunk)
+def decode_variable(encoded, records_per_chunk, mapper=None):
+    data = decode_array(encoded["data"], records_per_chunk=records_per_chunk, mapper=mapper)
 
     return Variable(dims=encoded["dims"], data=data, attrs=encoded["attrs"])
 
 
-def decode_group(encoded, records_per_chunk):
-    data = valmap(curry(decode_hierarchy, records_per_chunk=records_per_chunk), encoded["data"])
+def decode_group(encoded, records_per_chunk, mapper=None):
+    data = valmap(
+        curry(decode_hierarchy, records_per_chunk=records_per_chunk, mapper=mapper),
+        encoded["data"],
+    )
 
     return Group(path=encoded["path"], url=encoded["url"], data=data, attrs=encoded["attrs"])
 
 
-def decode_hierarchy(encoded, records_per_chunk):
+def decode_hierarchy(encoded, records_per_chunk, mapper=None):
     type_ = encoded.get("__type__")
 
     decoders = {
@@ -77,4 +83,4 @@ def decode_hierarchy(encoded, records_per_chunk):
     if decoder is None:
         return encoded
 
-    return decoder(encoded, records_per_chunk=records_per_chunk)
+    return decoder(encoded, records_per_chunk=records_per_chunk, mapper=mapper)
